@@ -165,8 +165,8 @@ class Shape:
         raise ValueError(n)
 
 
-SUFFIXES = ["conf", "ini", "cfg2x"]
-CFGNAMES = ["cfg", "cfg", "a.b", "cfg", "x y", "cfg", "n=1", "org.example.app"]     # (period 8 against the suffixes' 3)
+SUFFIXES = ["conf", "ini", "cfg2x", "conf.local"]      # (the last one: a suffix with a dot inside)
+CFGNAMES = ["cfg", "cfg", "a.b", "cfg", "x y", "cfg", "n=1", "org.example.app", "cfg"]     # (period 9 against the suffixes' 4)
 
 
 def materialise(tree, shape, R, contents=None, pd=None):
